@@ -33,8 +33,8 @@ ON = ["once", "determ"]
 
 
 def _corrupt(t: dict) -> bool:
-    subs = [e for e in t["evs"] if e["ev"] == "submit"]
-    if len(subs) < 2:
+    subs = [e for e in t["evs"] if e["ev"] == "submit" and e["optout"] == 0]
+    if len(subs) < 2 or subs[-1]["key"] == subs[0]["key"]:
         return False
     subs[-1]["key"] = subs[0]["key"]  # pretend the last submission repeated the first key
     return True
